@@ -81,9 +81,27 @@ class StructureMetaType(MetaType):
             obj = type.__call__(cls)
             object.__setattr__(obj, "_values", {})
             object.__setattr__(obj, "_sizes", {})
+            cls._own_mutable_defaults(obj)
             return obj
 
-        return super().__call__(*args, **kwargs)
+        obj = super().__call__(*args, **kwargs)
+        cls._own_mutable_defaults(obj)
+        return obj
+
+    def _own_mutable_defaults(cls, obj: Structure) -> None:
+        """Give ``obj`` its own copy of every mutable default value.
+
+        The generated ``__init__`` holds one default object per field, created when the class was built. Lists and
+        nested structures among them must not be handed out to more than one instance.
+        """
+        shared = [const for const in cls.__init__.__code__.co_consts if isinstance(const, (list, Structure))]
+        if not shared:
+            return
+
+        for field in cls.lookup.values():
+            value = obj.__dict__.get(field._name)
+            if isinstance(value, (list, Structure)) and any(value is const for const in shared):
+                object.__setattr__(obj, field._name, field.type.__default__())
 
     def _update_fields(
         cls, fields: list[Field], align: bool = False, classdict: dict[str, Any] | None = None
